@@ -54,6 +54,8 @@ structure TSt where
   pendingPick : Option Nat := none
   /-- number of blocks the device turned out to have (from the manager's `init` event) -/
   nblocks : Nat := 0
+  /-- the last `pickinv` event: (block, invalid bytes) of the block the manager is about to pick -/
+  lastInv : Option (Nat × Nat) := none
 
 def counts (m : St) : String := s!"clean={m.clean.length},evictable={m.evictable.length},reclaiming={m.reclaiming.length},waiters={m.waiters}"
 def evCounts (e : BEv) : String := s!"clean={e.clean},evictable={e.evictable},reclaiming={e.reclaiming},waiters={e.waiters}"
@@ -62,7 +64,14 @@ def evCounts (e : BEv) : String := s!"clean={e.clean},evictable={e.evictable},re
 def beforePick (m : St) (p : Nat) : St :=
   { m with evictable := p :: m.evictable, reclaiming := m.reclaiming.filter (· ≠ p) }
 
-def evStep (c : RCfg) (n : Nat) (t : TSt) (e : BEv) : Except String TSt :=
+/-- The model's picker is first-filled-first; the default picker chain may instead take a block that is at least
+80% invalid: the trace says so (`pickinv`), and the model then follows the implementation's choice. -/
+def repick (m : St) (p b : Nat) : St :=
+  { m with evictable := (p :: m.evictable).filter (· ≠ b),
+           reclaiming := m.reclaiming.map fun x => if x = p then b else x,
+           picked := m.picked.dropLast ++ [b] }
+
+def evStep (c : RCfg) (bsz : Nat) (n : Nat) (t : TSt) (e : BEv) : Except String TSt :=
   let after (m m' : St) : Except String TSt :=
     -- the hook records a transition before `reclaim_if_needed` runs and the pick as an event of its own
     let pick := if m'.picked.length > m.picked.length then m'.picked.getLast? else none
@@ -72,7 +81,16 @@ def evStep (c : RCfg) (n : Nat) (t : TSt) (e : BEv) : Except String TSt :=
     if counts shown ≠ evCounts e then .error s!"after {e.kind} {e.block}: model {counts shown}, implementation {evCounts e}"
     else .ok { t with m := m', pendingPick := pick }
   match t.pendingPick, e.kind with
+  | _, "pickinv" => .ok { t with lastInv := some (e.block, e.clean) }
   | some p, "pick" =>
+    let justified : Bool := match t.lastInv with
+      | some (b, inv) => b = e.block && inv * 10 ≥ bsz * 8 && t.m.evictable.contains e.block
+      | none => false
+    if p ≠ e.block && justified then
+      let m' := repick t.m p e.block
+      if counts m' ≠ evCounts e then .error s!"after pick {e.block}: model {counts m'}, implementation {evCounts e}"
+      else .ok { t with m := m', pendingPick := none }
+    else
     if p ≠ e.block then .error s!"the implementation picked block {e.block} for reclaim, the model block {p}"
     else if counts t.m ≠ evCounts e then .error s!"after pick {p}: model {counts t.m}, implementation {evCounts e}"
     else .ok { t with pendingPick := none }
@@ -108,7 +126,7 @@ def evStep (c : RCfg) (n : Nat) (t : TSt) (e : BEv) : Except String TSt :=
     else after t.m (step c t.m (.reclaimed e.block))
   | none, k => .error s!"unknown block event {k}"
 
-def runEvents (c : RCfg) (n : Nat) : TSt → List (Nat × Fields) → Nat → String
+def runEvents (c : RCfg) (bsz : Nat) (n : Nat) : TSt → List (Nat × Fields) → Nat → String
   | _, [], k => s!"ACCEPT ops={k}"
   | t, (ln, f) :: rest, k =>
     -- the device's real block count: clean blocks at `init` plus the blocks recovery found data in
@@ -116,9 +134,9 @@ def runEvents (c : RCfg) (n : Nat) : TSt → List (Nat × Fields) → Nat → St
     let t := match evs.find? (·.kind = "init") with
       | some e => { t with nblocks := e.clean + (evs.filter (·.kind = "init-evictable")).length }
       | none => t
-    match evs.foldlM (evStep c n) t with
+    match evs.foldlM (evStep c bsz n) t with
     | .error e => s!"REJECT line={ln} step={k} field=block-events model={(e.replace " " "_").take 220} impl=bev"
-    | .ok t' => runEvents c n t' rest (k + 1)
+    | .ok t' => runEvents c bsz n t' rest (k + 1)
 
 def runTrace (cfgF : Fields) (ops : List (Nat × Fields)) : String :=
   -- The key-level hybrid model completes a flusher batch atomically; with gated device writes a batch that spans
@@ -130,7 +148,7 @@ def runTrace (cfgF : Fields) (ops : List (Nat × Fields)) : String :=
   else
     let n := getNatD cfgF "blocks" 4
     let c : RCfg := { thr := getNatD cfgF "thr" 1, conc := getNatD cfgF "reclaimers" 1 }
-    runEvents c n { m := init n } ops 0
+    runEvents c (getNatD cfgF "bsize" 16384) n { m := init n } ops 0
 
 /-! ### M: C09 monitors -/
 
@@ -141,6 +159,8 @@ structure MSt where
   starts : List (Nat × Nat) := []
   idxOffs : List (Nat × Nat) := []
   removed : Bool := false
+  /-- the last `pickinv` event: (block, invalid bytes of the picked block) -/
+  lastInv : Option (Nat × Nat) := none
   /-- the monitor's own bookkeeping of the manager's sets, from the hook's events -/
   writing : List Nat := []
   queue : List Nat := []        -- finished, not yet picked (oldest first)
@@ -151,6 +171,7 @@ def emSet (l : List (Nat × Nat)) (b v : Nat) : List (Nat × Nat) := (b, v) :: l
 
 def monitor (cfgF : Fields) (ops : List (Nat × Fields)) : String :=
   let tomb := getD cfgF "tomb" "0" = "1"
+  let bsize := getNatD cfgF "bsize" 16384
   let rec go (st : MSt) : List (Nat × Fields) → Nat → String
     | [], _ => "HOLDS"
     | (ln, f) :: rest, n =>
@@ -172,11 +193,17 @@ def monitor (cfgF : Fields) (ops : List (Nat × Fields)) : String :=
             .error (fail "C09" "block_handed_out_twice" s!"block {e.block} given to a writer while writing={st.writing} evictable={st.queue} reclaiming={st.reclaiming}")
           else .ok { st with writing := st.writing ++ [e.block], reclaiming := st.reclaiming.filter (· ≠ e.block) }
         | "finish" => .ok { st with writing := st.writing.filter (· ≠ e.block), queue := st.queue ++ [e.block] }
+        | "pickinv" => .ok { st with lastInv := some (e.block, e.clean) }
         | "pick" =>
+          -- the default pickers: a block at least 80% invalid may be taken out of order (invalid-ratio picker);
+          -- every other pick is the fifo picker's and must be the block that was filled first
+          let mostlyInvalid : Bool := match st.lastInv with
+            | some (b, inv) => b = e.block && inv * 10 ≥ bsize * 8
+            | none => st.removed
           if st.writing.contains e.block then
             .error (fail "C09" "block_reclaimed_while_written" s!"block {e.block} picked for reclaim while a writer owns it")
-          else if !st.removed && st.queue.head? ≠ some e.block then
-            .error (fail "C09" "reclaim_not_oldest_first" s!"block {e.block} picked, blocks were filled in the order {st.queue}")
+          else if !mostlyInvalid && st.queue.head? ≠ some e.block then
+            .error (fail "C09" "reclaim_not_oldest_first" s!"block {e.block} (invalid bytes {(st.lastInv.map (·.2)).getD 0}) picked, blocks were filled in the order {st.queue}")
           else .ok { st with queue := st.queue.filter (· ≠ e.block), reclaiming := st.reclaiming ++ [e.block] }
         | "reclaimed" => .ok { st with reclaiming := st.reclaiming.filter (· ≠ e.block) }
         | _ => .ok st) st
